@@ -10,6 +10,15 @@ use std::path::{Path, PathBuf};
 
 /// Apply a single patch to a file
 fn apply_single_patch(file_path: &Path, patch_content: &str) -> Result<()> {
+    patch_file(file_path, patch_content, true)
+}
+
+/// Check that a patch applies to a file, in memory: nothing is written
+fn check_single_patch(file_path: &Path, patch_content: &str) -> Result<()> {
+    patch_file(file_path, patch_content, false)
+}
+
+fn patch_file(file_path: &Path, patch_content: &str, write: bool) -> Result<()> {
     // Read the current file content
     let current_content = fs::read_to_string(file_path)
         .with_context(|| format!("Failed to read file: {}", file_path.display()))?;
@@ -101,6 +110,10 @@ fn apply_single_patch(file_path: &Path, patch_content: &str) -> Result<()> {
     #[cfg(not(windows))]
     let result_to_write = result;
 
+    if !write {
+        return Ok(());
+    }
+
     // Write the result through a temporary file and rename it into place, exactly as apply does:
     // writing in place fails on a read-only file that apply was able to edit.
     let temp_path = file_path.with_extension(format!("{}.renamify.tmp", std::process::id()));
@@ -161,6 +174,67 @@ pub fn undo_renaming(id: &str, renamify_dir: &Path) -> Result<()> {
             id
         ));
     }
+    // Collect the reverse patches and make sure every one of them still applies BEFORE anything is
+    // touched: a patch that fails half-way through would leave some files restored, others not,
+    // and `.rej` files behind. Each file is read where apply left it (its renamed location).
+    let mut patches_by_file: HashMap<PathBuf, String> = HashMap::new();
+    let mut location_now: HashMap<PathBuf, PathBuf> = HashMap::new();
+    for hunk in &plan.matches {
+        if let Some(hash) = &hunk.patch_hash {
+            let patch_file = reverse_patches_dir.join(format!("{}.patch", hash));
+            if patch_file.exists() {
+                let patch_content = fs::read_to_string(&patch_file)?;
+                // Use the original_file if it exists, otherwise use the current file path
+                let target_file = hunk.original_file.as_ref().unwrap_or(&hunk.file);
+                patches_by_file.insert(target_file.clone(), patch_content);
+                if let Some(renamed) = &hunk.renamed_file {
+                    location_now.insert(target_file.clone(), renamed.clone());
+                }
+            }
+        }
+    }
+
+    let mut stale_patches = Vec::new();
+    for (target_file, patch_content) in &patches_by_file {
+        // Where the file is now: where apply recorded it, else where the plan's renames put it
+        let now_at = location_now
+            .get(target_file)
+            .cloned()
+            .or_else(|| {
+                plan.paths
+                    .iter()
+                    .find(|r| &r.path == target_file)
+                    .map(|r| r.new_path.clone())
+            })
+            .or_else(|| {
+                plan.paths
+                    .iter()
+                    .filter(|r| matches!(r.kind, crate::scanner::RenameKind::Dir))
+                    .filter_map(|r| {
+                        target_file
+                            .strip_prefix(&r.path)
+                            .ok()
+                            .map(|rel| (r.path.components().count(), r.new_path.join(rel)))
+                    })
+                    .max_by_key(|(depth, _)| *depth)
+                    .map(|(_, p)| p)
+            })
+            .filter(|p| p.exists())
+            .unwrap_or_else(|| target_file.clone());
+        let now_at = &now_at;
+        if let Err(e) = check_single_patch(now_at, patch_content) {
+            stale_patches.push(format!("{}: {}", now_at.display(), e));
+        }
+    }
+    if !stale_patches.is_empty() {
+        return Err(anyhow!(
+            "Cannot undo '{}': {} file(s) changed since it was applied, nothing was touched ({})",
+            id,
+            stale_patches.len(),
+            stale_patches.join("; ")
+        ));
+    }
+
     // STEP 1: Reverse renames first (new locations back to old)
     // Process renames in reverse order, deepest paths first
     // Use the renames from the plan, not from history
@@ -246,20 +320,7 @@ pub fn undo_renaming(id: &str, renamify_dir: &Path) -> Result<()> {
         }
     }
 
-    // STEP 2: Apply individual reverse patches
-    // Group matches by file to apply patches
-    let mut patches_by_file: HashMap<PathBuf, String> = HashMap::new();
-    for hunk in &plan.matches {
-        if let Some(hash) = &hunk.patch_hash {
-            let patch_file = reverse_patches_dir.join(format!("{}.patch", hash));
-            if patch_file.exists() {
-                let patch_content = fs::read_to_string(&patch_file)?;
-                // Use the original_file if it exists, otherwise use the current file path
-                let target_file = hunk.original_file.as_ref().unwrap_or(&hunk.file);
-                patches_by_file.insert(target_file.clone(), patch_content);
-            }
-        }
-    }
+    // STEP 2: Apply individual reverse patches (collected and validated above)
 
     // Apply all patches
     let mut failed_patches = Vec::new();
